@@ -56,7 +56,9 @@ def stmt_failure(zero, a, b, idx_nm, r, fy, fx):
     # round trips
     back = grm.get_indices(coords, zero, a, b)
     cond = (np.linalg.norm(a) * np.linalg.norm(b)) / abs(a[0] * b[1] - a[1] * b[0])
-    if np.abs(back - flat).max() > 1e-9 * cond * max(1.0, np.abs(flat).max()) * sc:
+    # the solve loses about cond * eps relative to the largest index-like quantity involved (indices, |coords| / |a|)
+    lmin = min(np.linalg.norm(a), np.linalg.norm(b))
+    if np.abs(back - flat).max() > 1e-11 * cond * max(1.0, np.abs(flat).max(), sc / lmin):
         return 'get_indices(calc_coords(indices)) != indices (max dev %.3g)' % np.abs(back - flat).max()
     fwd = bu.calc_coords(zero, a, b, back)
     if np.abs(fwd - coords).max() > 1e-8 * cond * sc:
@@ -113,6 +115,9 @@ def gen_case(rng, integer):
     idx = np.mgrid[lo_i:lo_i + n, lo_j:lo_j + m].astype(float)
     if not integer and rng.integers(0, 3) == 0:
         idx = idx + rng.choice([0.0, 0.5, 0.25], size=idx.shape)
+    elif not integer and rng.integers(0, 3) == 0:
+        # index sets far from the origin with small off-integer parts (a wide field of view over a fine lattice)
+        idx = idx * float(rng.choice([1, 7, 40])) + rng.choice([-5000.0, -300.0, 120.0, 2900.0], size=(2, 1, 1)) + rng.choice([0.0, 0.024, -0.11, 0.3, 1e-3], size=idx.shape)
     fy, fx = float(rng.integers(8, 130)), float(rng.integers(8, 130))
     if integer:
         # put a peak exactly on the boundary r or frame - r
